@@ -23,7 +23,7 @@ func checkC20(p *Prog, r *Report) {
 		r.Undecided("R0", "anchor:api.EntityLocalInterface/FeatureLocalInterface", "", "interface not found")
 		return
 	}
-	r.Rule("R1", "in every use-case mutator the copy of the use-case data (DataCopy) and the SetData storing the modified copy share one critical section; all mutators use the same lock")
+	r.Rule("R1", "in every use-case mutator the copy of the use-case data (DataCopy) and the SetData storing the modified copy share one critical section; all mutators use the same lock, and that lock is as wide as the data (package level or owned by the device's node management, never per entity)")
 	r.Rule("R5", "every use-case method keys the data by {Device: own address device, Entity: own address entity}, copies the node-management use-case function, and delegates to the data-model helper of the matching operation")
 	mutators := map[string]string{"AddUseCaseSupport": "AddUseCaseSupport", "RemoveUseCaseSupport": "RemoveUseCaseSupport", "SetUseCaseAvailability": "SetAvailability", "RemoveAllUseCaseSupports": "RemoveUseCaseDataForAddress", "HasUseCaseSupport": "HasUseCaseSupport"}
 	commonLocks := map[string]int{}
